@@ -3,8 +3,10 @@
 package main
 
 import (
+	"encoding/json"
 	"fmt"
 	"os"
+	"strings"
 
 	"verif/mc/wire"
 
@@ -93,6 +95,26 @@ func main() {
 					continue
 				}
 				m := r.Method(rp.Method)
+				if len(rp.Paths) == 2 && strings.HasPrefix(rp.Paths[0], "unknown@") {
+					w := NewWorld(u, DefaultConfig)
+					call, reply := buildCall(a.Gen, r, m, "none", nil)
+					validOuts, _ := w.Do(call, reply)
+					valid := w.transport.Last()
+					var body interface{}
+					_ = json.Unmarshal(valid.Body, &body)
+					for _, site := range unknownFieldSites(m, body) {
+						if "unknown@"+scopeString(site) != rp.Paths[0] {
+							continue
+						}
+						kind, detail := unknownFieldCase(a.Gen, u, r, m, site, rp.Paths[1], rp.Strict, valid, validOuts)
+						fmt.Printf("%s.%s response with unknown fields %s at %q strict=%v\n", r.Name(), rp.Method, rp.Paths[1], scopeString(site), rp.Strict)
+						if kind != "" {
+							fmt.Println("FAIL:", kind, detail)
+							os.Exit(1)
+						}
+					}
+					continue
+				}
 				ent := returnsEntity(r, m)
 				valid, validOuts, singles := c06wPrepare(a.Gen, u, r, m, ent)
 				var paths [][]string
